@@ -23,6 +23,7 @@ type Spec struct {
 	Name    string       `json:"name"`
 	Slot    int          `json:"slot"`
 	Profile sopx.Profile `json:"profile"`
+	Empty   bool         `json:"empty,omitempty"` // Baseline creates the store but adds nothing to it
 }
 
 // Op is one B-tree operation. Kind ∈ add|update|remove|upsert|get.
@@ -277,6 +278,9 @@ func Val(tag string, n int) string {
 func Baseline(specs []Spec, nKeys int) (Program, Model) {
 	p := Program{Shape: "baseline", Create: specs}
 	for _, s := range specs {
+		if s.Empty {
+			continue
+		}
 		for i := 0; i < nKeys; i++ {
 			p.Ops = append(p.Ops, Op{Store: s.Name, Kind: "add", K: Key(i * 10), V: Val(fmt.Sprintf("b%d", i), 12)})
 		}
@@ -285,7 +289,7 @@ func Baseline(specs []Spec, nKeys int) (Program, Model) {
 }
 
 // Shapes of writer programs (DESIGN §4 E-ATOM).
-var Shapes = []string{"S1-newstore", "S2-emptied-root", "S3-leaf-insert", "S4-split", "S5-rootsplit", "S6-updates", "S7-removes", "S8-mixed", "S9-multistore", "S10-create-and-change"}
+var Shapes = []string{"S1-newstore", "S2-emptied-root", "S3-leaf-insert", "S4-split", "S5-rootsplit", "S6-updates", "S7-removes", "S8-mixed", "S9-multistore", "S10-create-and-change", "S0-first-root"}
 
 // Gen produces a program of the given shape valid against model m. existing = stores of the baseline.
 func Gen(rnd *rand.Rand, shape string, m Model, existing []Spec, tag string) Program {
@@ -404,6 +408,25 @@ func Gen(rnd *rand.Rand, shape string, m Model, existing []Spec, tag string) Pro
 				}
 			case 3:
 				p.Ops = append(p.Ops, Op{s.Name, "upsert", newKey(s.Name, used), Val(tag+"x", 10)})
+			}
+		}
+	case "S0-first-root":
+		// the first items of a store that exists but is still empty: the root node is created under the id
+		// the store was given when it was made, so a failed attempt and its retry use the SAME node id
+		for _, s := range existing {
+			if len(m[s.Name]) == 0 {
+				for i := 0; i < 1+rnd.Intn(3); i++ {
+					p.Ops = append(p.Ops, Op{s.Name, "add", Key(i*11 + rnd.Intn(7)), Val(tag, 10)})
+				}
+			}
+		}
+		// plus a change of an existing populated store in the same transaction, half of the time
+		if rnd.Intn(2) == 0 {
+			for _, s := range existing {
+				if ks := keysOf(s.Name); len(ks) > 0 {
+					p.Ops = append(p.Ops, Op{s.Name, "update", ks[0], Val(tag+"u", 12)})
+					break
+				}
 			}
 		}
 	case "S10-create-and-change":
